@@ -133,4 +133,29 @@ impl CPCTPlus {
         //@endbody
     }
 }
+
+// ---- simplify_repairs: the trailing-shift stripper (the block run on every sequence) ----
+pub open spec fn is_shift_pr(x: ParseRepair) -> bool { x matches ParseRepair::Shift(_) }
+//@ctx strip_trailing_shifts: `rprs` is one element of `all_rprs.iter_mut()`; the dedup through a HashSet and the sort that follow are std (not under contract)
+fn strip_trailing_shifts(rprs: &mut Vec<ParseRepair>)
+    ensures
+        final(rprs)@.len() <= old(rprs)@.len() && final(rprs)@ == old(rprs)@.take(final(rprs)@.len() as int), // OBL: C06.simplify.only_a_suffix_is_removed
+        final(rprs)@.len() > 0 ==> !is_shift_pr(final(rprs)@.last()), // OBL: C06.no_reported_sequence_ends_in_a_shift
+        forall|k: int| final(rprs)@.len() <= k < old(rprs)@.len() ==> is_shift_pr(#[trigger] old(rprs)@[k]), // OBL: C06.simplify.only_shifts_are_removed
+{
+    //@probe
+    //@body file=lrpar/src/lib/cpctplus.rs fn=simplify_repairs block=`^\s*while !rprs\.is_empty\(\) \{` through=brace
+    //@rule n=1 `^(\s*)while !rprs\.is_empty\(\) \{$` =>>
+    while !rprs.is_empty()
+        invariant_except_break rprs@.len() <= old(rprs)@.len(), rprs@ == old(rprs)@.take(rprs@.len() as int),
+            forall|k: int| rprs@.len() <= k < old(rprs)@.len() ==> is_shift_pr(#[trigger] old(rprs)@[k]),
+        ensures rprs@.len() <= old(rprs)@.len(), rprs@ == old(rprs)@.take(rprs@.len() as int),
+            forall|k: int| rprs@.len() <= k < old(rprs)@.len() ==> is_shift_pr(#[trigger] old(rprs)@[k]),
+            rprs@.len() > 0 ==> !is_shift_pr(rprs@.last()),
+        decreases rprs@.len(),
+    {
+        //@probe
+    //@end
+    //@endbody
+}
 //@use prelude/tail.rs
